@@ -22,8 +22,9 @@ def evOp : EvOp → Op
 def evChain (S : Schema) (e : Ev) : DNode :=
   let leafD := dupRec e.node
   let leafD := addMeta leafD "operation" (Diff.bs (evOp e.op).str)
+  -- a create carries yang:key / value / position, a delete (repaired code, F63) yang:orig-key / orig-value / orig-position
   let leafD := match e.anchor with
-    | some (k, v) => addMeta leafD k v
+    | some (k, v) => addMeta leafD (if e.op == .delete then "orig-" ++ k else k) v
     | none => leafD
   -- wrap into the copied parents, innermost first; the outermost one gets `none`
   let rec wrap : List DNode → DNode → DNode
@@ -53,7 +54,12 @@ def findMatchM (S : Schema) (sibs : List DNode) (src : DNode) : Option Nat :=
 /-- `lyd_diff_is_redundant` for the operations at hand -/
 def redundant (S : Schema) (d : DNode) (op : Op) : Bool :=
   let noChild := S.isDupInst d.sid || (noKeys S d.kids).isEmpty
-  if op == .none then
+  if op == .replace && S.isUserOrd d.sid then
+    let nm := anchorMetaName S d.sid
+    -- a move to where the node already is (its metadata are dropped; with children it becomes `none`, which `mergeR` does not
+    -- produce for validation diffs)
+    getMeta d nm == getMeta d ("orig-" ++ nm) && noChild
+  else if op == .none then
     if d.isTerm then
       match getMeta d "orig-default" with
       | some v => (v == Diff.bs "true" && d.flags.dflt) || (v == Diff.bs "false" && !d.flags.dflt)
@@ -92,7 +98,17 @@ def mergeR (S : Schema) : (fuel : Nat) → (acc : List DNode) → (accInh : Op) 
           | .none, .delete => none
           | .none, _ => some (if src.isTerm then m.setDflt src.flags.dflt else m)
           | .create, .delete =>
-            if S.isUserOrd src.sid then none          -- needs yang:orig-key / orig-value / orig-position, which a validation delete lacks
+            if S.isUserOrd src.sid then
+              -- anchors: deleted + created at another position -> REPLACE (moved behind its fellow instances), at the same -> NONE
+              let nm := anchorMetaName S src.sid
+              match getMeta src nm, getMeta m ("orig-" ++ nm) with
+              | some a, some oa =>
+                let m1 :=
+                  if a != oa then addMeta (setOp m .replace) nm a
+                  else (setOp m .none).setMetas (eraseMeta ("orig-" ++ nm) (setOp m .none).metas)
+                let m2 := if m1.isTerm then (addMeta m1 "orig-default" (boolBytes m.flags.dflt)).setDflt src.flags.dflt else m1
+                some (m2.setKids (m2.kids.map fun c => if S.isKey c.sid then c else setOp c .delete))
+              | _, _ => none        -- the defective code (F63) records no original anchor: "Failed to find metadata"
             else
               let m1 :=
                 if S.isKind src.sid .leaf && m.val != src.val then
@@ -118,7 +134,10 @@ def mergeR (S : Schema) : (fuel : Nat) → (acc : List DNode) → (accInh : Op) 
           | none => none
           | some ks =>
             let m2 := m1.setKids (keysOf S m1.kids ++ ks)
-            if redundant S m2 (opOfD m2 accInh) then some (acc.eraseIdx i) else some (acc.set i m2)
+            if redundant S m2 (opOfD m2 accInh) then some (acc.eraseIdx i)
+            else if srcOp == .create && curOp == .delete && S.isUserOrd src.sid && opOfD m2 accInh == .replace then
+              some (moveToGroupEnd (acc.set i m2) i)
+            else some (acc.set i m2)
 
 /-- `lyd_val_diff_add` for every event in order; `none` once a merge fails -/
 def valDiff (S : Schema) (evs : List Ev) : Option (List DNode) :=
